@@ -1,6 +1,7 @@
 package core
 
 import (
+	"errors"
 	"fmt"
 
 	jschema "github.com/jsightapi/jsight-schema-go-library"
@@ -47,8 +48,26 @@ func (f *usedUserTypeFetcher) fetch(ut jschema.Schema) error {
 		f.alreadyProcessed[t] = struct{}{}
 		f.usedUserTypes = append(f.usedUserTypes, t)
 		if err := f.fetch(f.userTypes.GetValue(t)); err != nil {
-			return fmt.Errorf("process type %q: %w", t, err)
+			var ute userTypeError
+			if errors.As(err, &ute) {
+				return err // the innermost type is the one the error is in
+			}
+			return userTypeError{name: t, err: err}
 		}
 	}
 	return nil
+}
+
+// userTypeError tells in which user type an error was found while following references.
+type userTypeError struct {
+	err  error
+	name string
+}
+
+func (e userTypeError) Error() string {
+	return fmt.Sprintf("process type %q: %s", e.name, e.err)
+}
+
+func (e userTypeError) Unwrap() error {
+	return e.err
 }
